@@ -29,6 +29,7 @@ import (
 type v12Gate struct {
 	mu     sync.Mutex
 	driver string          // goroutine id of the driver (which calls Server.apply)
+	hold   bool            // announcements from other goroutines are held (false: they pass)
 	parked []chan struct{} // announcements that arrived from other goroutines
 }
 
@@ -47,16 +48,29 @@ func (g *v12Gate) hook(name string) {
 	if name != "metadata.stream_deleted" || v12GID() == g.driver {
 		return
 	}
-	ch := make(chan struct{})
 	g.mu.Lock()
+	if !g.hold {
+		g.mu.Unlock()
+		return
+	}
+	ch := make(chan struct{})
 	g.parked = append(g.parked, ch)
 	g.mu.Unlock()
 	<-ch
 }
 
-// releaseAll lets the held announcements go (end of a behaviour)
+// holdOthers: from now on announcements made outside the applying goroutine are held
+func (g *v12Gate) holdOthers() {
+	g.mu.Lock()
+	g.hold = true
+	g.mu.Unlock()
+}
+
+// releaseAll lets the held announcements go and those that have not arrived yet pass
+// (end of a behaviour, or a server is about to be stopped)
 func (g *v12Gate) releaseAll() {
 	g.mu.Lock()
+	g.hold = false
 	for _, ch := range g.parked {
 		close(ch)
 	}
@@ -199,6 +213,7 @@ func (r *v12FSMRun) step(id int, step map[string]interface{}) v12Event {
 			// (announcements held at the gate - made outside the apply - would block the stop)
 			r.gate.releaseAll()
 			v06Close(r.srv[v])
+			r.gate.holdOthers()
 			r.srv[v] = v06NewServer(v, r.dirs[v])
 			if err := r.srv[v].Restore(io.NopCloser(bytes.NewReader(sink.Bytes()))); err != nil {
 				obs.Err = "other:" + err.Error()
@@ -273,6 +288,7 @@ func TestVerifGroupsFSM(t *testing.T) {
 		}
 		tw.Emit(v12Event{T: b.ID, A: "Open", Args: map[string]interface{}{}, St: run.state(),
 			Obs: v12Obs{A: "Open", Ret: map[string][]int32{}}})
+		gate.holdOthers()
 		failed := false
 		for _, step := range b.Steps {
 			ev := run.step(b.ID, step)
